@@ -290,7 +290,9 @@ class World:
         x = self.dv.derive(root, [self.step(r.random() < 0.4) for _ in range(depth)])
         if not private:
             x = rb.neuter(x)
-        path = [self.step(private and hardened_ok and r.random() < 0.35) for _ in range(r.choice([0, 0, 1, 1, 2, 3]))]
+        # a hardened step below a public key (rare): BIP32 has no answer, and the library must have none either
+        lost = (not private) and hardened_ok and r.random() < 0.04
+        path = [self.step(hardened_ok and (private or lost) and r.random() < 0.35) for _ in range(r.choice([0, 0, 1, 1, 2, 3]))]
         if ranged is None:
             ranged = r.random() < 0.65
         wildcard = None
@@ -448,12 +450,15 @@ class World:
     def decode_addr(self, a: str) -> bytes:
         return self.ra.decode_address(self.nd, a)[0]
 
-    def expected(self, node, index: int, neutered: bool):
+    def expected(self, node, index: int, neutered: bool, family=None):
         """The scripts at ``index``, or None where BIP32 / BIP341 have no answer (memoised per descriptor object)."""
         k = (id(node), index, neutered)
         if self._exp_node is not node:
             self._exp_node, self._exp = node, {}
         if k not in self._exp:
+            # the private keys a parse hands back serve every key expression that names the same key publicly
+            self.dv.known = {} if neutered else {self.rb.neuter(x.xkey): x.xkey for n in (family or [node])
+                                                  for x in all_keys(self.rs, n) if x.kind == "xkey" and x.xkey.is_private}
             try:
                 self._exp[k] = self.rs.scripts(self.dv, node, index, self.decode_addr, neutered)
             except self.rs.CannotDerive:
@@ -1210,7 +1215,7 @@ def shard_wallet(ctx: Ctx) -> None:
                 def expected_at(b, i, nodes=nodes, has_prv=has_prv):
                     if i and not rs.is_ranged(nodes[b]):
                         return None
-                    e = w.expected(nodes[b], i, neutered=not has_prv)
+                    e = w.expected(nodes[b], i, neutered=not has_prv, family=nodes)
                     return None if e is None else e[0]
 
                 if any(policy_excuse(rs, x) for x in nodes) or any(expected_at(b, 0) is None for b in branches):
